@@ -26,6 +26,10 @@ fn main() {
         usage();
     }
     let prop = args[1].to_uppercase();
+    if prop == "C07HUGE" {
+        // child process of C07 (one huge instance; see props/c07.rs)
+        std::process::exit(props::c07::huge_child(args.get(2).map(|s| s.as_str()).unwrap_or("")));
+    }
     let mut tier = match std::env::var("VERIF_TIER").as_deref() {
         Ok("thorough") => Tier::Thorough,
         _ => Tier::Quick,
